@@ -134,6 +134,19 @@ pub fn run(ctx: &Ctx) -> i32 {
             check_case(ctx, st, &tcs, Settings::with(REP, 1 + k as u32, 1 + (k as u32 % 2)));
         });
     }
+    // prefixes followed by different sets of repeat counts (all pairs of subsets of {1..5})
+    {
+        let cs = gen::count_set_cases();
+        let step = if ctx.thorough { 1 } else { 1 };
+        par_for(&ctx.run, cs.len() / step, |k, st| {
+            let i = k * step + (seed as usize % step);
+            st.count("count_set_cases");
+            check_case(ctx, st, &cs[i], Settings::new(REP));
+            if i % 5 == 0 {
+                check_case(ctx, st, &cs[i].iter().map(|t| format!("{t}z")).collect::<Vec<_>>(), Settings::with(REP, 1, 1));
+            }
+        });
+    }
     // random repeat-rich families x other settings
     let n = if ctx.thorough { 300_000 } else { 12_000 };
     let names = ["ab", "abc", "meta", "graph", "astral", "classes", "case", "ws", "clusters", "tokens"];
